@@ -688,7 +688,7 @@ func TestC01Replay(t *testing.T) {
 	vlib.RunCases(t, "C01", "replay-order", n, func(c *vlib.Case) vlib.Result {
 		var res vlib.Result
 		rng := c.Rng
-		kubeeventsmanager.DefaultFactoryStore.Reset()
+		kubeeventsmanager.DefaultFactoryStore = kubeeventsmanager.NewFactoryStore()
 		vc := vlib.NewVCluster()
 		ctx, cancel := context.WithCancel(context.Background())
 		defer cancel()
